@@ -4,33 +4,33 @@
 // Failing check: assertion ""C06: decoded original position == input""
 #[test]
 fn kani_concrete_playback_mapping_delta_k2_17893901423066049432() {
-    let concrete_vals: Vec<Vec<u8>> = vec![
+    let concrete_vals: std::vec::Vec<std::vec::Vec<u8>> = std::vec![
         // 0ul
-        vec![0, 0, 0, 0, 0, 0, 0, 0],
+        std::vec![0, 0, 0, 0, 0, 0, 0, 0],
         // 2ul
-        vec![2, 0, 0, 0, 0, 0, 0, 0],
+        std::vec![2, 0, 0, 0, 0, 0, 0, 0],
         // 4611686018427387902ul
-        vec![254, 255, 255, 255, 255, 255, 255, 63],
+        std::vec![254, 255, 255, 255, 255, 255, 255, 63],
         // 4611686016279904255ul
-        vec![255, 255, 255, 127, 255, 255, 255, 63],
+        std::vec![255, 255, 255, 127, 255, 255, 255, 63],
         // 2305843009213693951ul
-        vec![255, 255, 255, 255, 255, 255, 255, 31],
+        std::vec![255, 255, 255, 255, 255, 255, 255, 31],
         // 1
-        vec![1],
+        std::vec![1],
         // 2305843009213693952ul
-        vec![0, 0, 0, 0, 0, 0, 0, 32],
+        std::vec![0, 0, 0, 0, 0, 0, 0, 32],
         // 2ul
-        vec![2, 0, 0, 0, 0, 0, 0, 0],
+        std::vec![2, 0, 0, 0, 0, 0, 0, 0],
         // 1ul
-        vec![1, 0, 0, 0, 0, 0, 0, 0],
+        std::vec![1, 0, 0, 0, 0, 0, 0, 0],
         // 0ul
-        vec![0, 0, 0, 0, 0, 0, 0, 0],
+        std::vec![0, 0, 0, 0, 0, 0, 0, 0],
         // 0ul
-        vec![0, 0, 0, 0, 0, 0, 0, 0],
+        std::vec![0, 0, 0, 0, 0, 0, 0, 0],
         // 1152921504606846975ul
-        vec![255, 255, 255, 255, 255, 255, 255, 15],
+        std::vec![255, 255, 255, 255, 255, 255, 255, 15],
         // 0
-        vec![0],
+        std::vec![0],
     ];
     kani::concrete_playback_run(concrete_vals, mapping_delta_k2);
 }
